@@ -16,6 +16,8 @@ type gen struct {
 	n         int
 	lastProof map[string]interface{}
 	spareJWT  string // another valid JWT credential of the same issuer, not part of the presentation that was signed
+	// number of embedded credentials of the current presentation whose own proof was broken before the holder signed
+	embeddedBroken int
 }
 
 func (g *gen) fresh(prefix string) string {
@@ -195,6 +197,32 @@ func (g *gen) presentation(r *hx.Rng, extraCtx string) map[string]interface{} {
 
 	for i := range creds {
 		creds[i] = g.credential(r, "")
+	}
+
+	// embedded credentials with their OWN issuer proof (Ed25519Signature2018): intact, or with a claim altered after the
+	// issuer signed and before the holder signs the presentation (the presentation proof then covers a credential
+	// whose own proof is invalid: ParsePresentation does not check proofs of embedded credential objects)
+	g.embeddedBroken = 0
+
+	for i := range creds {
+		if r.Intn(2) == 0 {
+			continue
+		}
+
+		sd0 := g.w.suites[0]
+
+		vcSigned, err := g.w.signVC(creds[i].(map[string]interface{}), signOpts{suite: sd0, key: sd0.keys[0], //nolint:forcetypeassert
+			created: time.Date(2020, 5, 6, 7, 8, 9, 0, time.UTC)})
+		if err != nil {
+			continue
+		}
+
+		if r.Bool() {
+			vcSigned["issuanceDate"] = "2001-01-01T00:00:00Z"
+			g.embeddedBroken++
+		}
+
+		creds[i] = vcSigned
 	}
 
 	// every other presentation also carries credentials in JWT form (compact JWS strings)
@@ -944,7 +972,7 @@ func (g *gen) edits(r *hx.Rng, kind string, sd *suiteDef, signed map[string]inte
 		})
 
 		for _, kv := range [][2]string{{"nonce", "%%%"}, {"id", "urn:verif:proof"}, {"creator", "did:example:x#k"},
-			{"zz_unknown", "u"}, {"capabilityChain", "notarray"}} {
+			{"zz_unknown", "u"}, {"capabilityChain", "notarray"}, {"previousProof", "urn:verif:previous"}} {
 			kv := kv
 
 			add(fmt.Sprintf("optinject %s=%s#%d", kv[0], kv[1], i), "model", func(d map[string]interface{}) bool {
